@@ -76,13 +76,16 @@ class RecStore(DictStorage):
         return DictStorage.write(self, envelope, timestamp)
 
 
-def run_case(chain, rcpts, hdkey, nth=1, block=None):
+def run_case(chain, rcpts, hdkey, nth=1, block=None, sameobj=False):
     """nth = 2: the same queue (the same policy objects) is given the same message twice; the second one is reported, and
     the aliasing probe covers the stored envelopes of both"""
     st = RecStore()
     q = Queue(st, None)
+    insts = {}
     for p in chain:
-        q.add_policy(POLS[p]())
+        # sameobj: a policy that occurs twice in the chain is the same object both times (a chain is a list of objects; nothing
+        # says they are distinct)
+        q.add_policy(insts.setdefault(p, POLS[p]()) if sameobj else POLS[p]())
     first = 0
     for k in range(nth):
         e = Envelope('s@x', list(rcpts))
@@ -141,10 +144,11 @@ def main():
         # one in three: the second of two equal messages through the same policy objects; one in three: field names respelled
         nth = 2 if rnd.random() < 0.34 else 1
         block = respell(HDRS[hk], rnd) if rnd.random() < 0.34 else None
-        ev = run_case(chain, rcpts, hk, nth=nth, block=block)
+        sameobj = len(set(chain)) < len(chain) and rnd.random() < 0.5
+        ev = run_case(chain, rcpts, hk, nth=nth, block=block, sameobj=sameobj)
         stats['executions'] += 1
         cls = ('split' if any(p in ('RS', 'DS', 'ECHO') for p in chain) and len(rcpts) > 1 else 'plain') + ('-second' if nth == 2 else '') + \
-            ('-respelled' if block is not None and block != HDRS[hk] else '')
+            ('-respelled' if block is not None and block != HDRS[hk] else '') + ('-sameobj' if sameobj else '')
         if cls == 'split':
             stats['splitting_chains'] += 1
         f.write(json.dumps({'id': shard + n[0] * nshards, 'cls': cls, 'chain': list(chain), 'rc': [proj(r) for r in rcpts],
